@@ -10,6 +10,7 @@ import Pcore.Proofs.FilesKinds
 import Pcore.Proofs.FilesDeep
 import Pcore.Proofs.FilesAncestor
 import Pcore.Proofs.FilesTypeset
+import Pcore.Proofs.FilesTermMain
 /-!
 # C15 — File-based loading maps names to definition files faithfully
 
@@ -81,9 +82,12 @@ Full statement / proved / missing
 * missing: type sets through a module loader below the global loader / through the dependency loader (the same resolution
   repeated per loader on the route), several existing ancestors at once; it is false as
   stated for layouts that define one name twice (`C15_duplicate_redefine`, known finding C15-duplicate-redefine) and the
-  error of a misnamed file carries no line (`C15_misnamed_no_line`, known finding C15-misnamed-no-line).  Termination
-  (`diverges` unreachable for enough fuel) is not proved; the correspondence run never observed it.  The OS (Walk order,
-  permissions, symlinks), the parser and type resolution are parameters (DESIGN.md §5).
+  error of a misnamed file carries no line (`C15_misnamed_no_line`, known finding C15-misnamed-no-line).  The OS (Walk
+  order, permissions, symlinks), the parser and type resolution are parameters (DESIGN.md §5).
+* `C15_terminates`, `C15_terminates_seq` (proved, full: any tree, modules, context loader, topology, state, names) —
+  termination of the model: with `guardInit` and fuel `(W+1) * (|mods| + T + 3(|name| + W) + 14)` no lookup answers
+  `diverges` (`W` = instantiable (loader, key) pairs without an entry, `T` = largest type set), and no lookup removes an
+  entry.
 -/
 namespace Pcore.Files
 
@@ -950,6 +954,32 @@ example :
       [["modules", "other", "types", "sub", "set.pp"]] := by
   refine ⟨memHyp_of_check (by decide), Or.inl ⟨rfl, Or.inl rfl⟩, Or.inl ⟨rfl, Or.inl rfl⟩, by decide, by decide,
     memHyp_of_check (by decide), memHyp_of_check (by decide), by decide, by decide, by decide⟩
+
+/-! ## termination of the model -/
+
+/-- with the placeholder guard (fix 51b01c7) no lookup diverges: for ANY tree, module list, context loader, topology, state
+    and name, fuel `fuelBound cfg s name` = `(W + 1) * (|mods| + T + 3 * (|name| + W) + 14)` suffices, where `W` =
+    `pot cfg s` is the number of instantiable (loader, key) pairs the state holds nothing for and `T` the largest number of
+    members of a type-set file; moreover a lookup never removes an entry.  (`instantiate` installs the placeholder before
+    the recursion re-enters, so `W` drops at every instantiation; `C15_once_needs_guard`: without the guard the answer IS
+    `diverges`.) -/
+theorem C15_terminates (cfg : Cfg) (hg : cfg.guardInit = true) (s : St) (name : Name) (fuel : Nat)
+    (hf : fuelBound cfg s name ≤ fuel) :
+    (loadS fuel cfg s name).1 ≠ .failed .diverges ∧ Mono s (loadS fuel cfg s name).2 :=
+  load_terminates cfg hg s name fuel hf
+
+/-- a whole lookup sequence: one bound (longest name, initial potential) for every lookup of it -/
+theorem C15_terminates_seq (cfg : Cfg) (hg : cfg.guardInit = true) (names : List Name) (s : St) (fuel : Nat)
+    (hf : seqBound cfg s names ≤ fuel) : ∀ o ∈ (runLoads fuel cfg s names).1, o ≠ .failed .diverges :=
+  runLoads_terminates cfg hg names s fuel hf
+
+/-- non-vacuity: the bound is a small number for a concrete tree (far below the driver's fuel 5000), and with that fuel
+    the type-set sequence of `C15_once` is answered -/
+example : fuelBound tsCfg {} ["Mymod", "Ta"] = 228 ∧ tsCfg.guardInit = true ∧
+    seqBound tsCfg {} [["Mymod", "Ta"], ["mymod"], ["Mymod", "Thing"]] = 228 ∧
+    (runLoads 228 tsCfg {} [["Mymod", "Ta"], ["mymod"], ["Mymod", "Thing"]]).1 =
+      [.found ⟨.alias, ["Mymod", "Ta"]⟩, .found ⟨.typeset, ["Mymod"]⟩, .found ⟨.alias, ["Mymod", "Thing"]⟩] := by
+  refine ⟨by decide, rfl, by decide, by decide⟩
 
 /-! ## negation witnesses for the known findings -/
 
